@@ -1,3 +1,3 @@
-(* _client.py :: _async_get_key :: ('callarg', 'GetKey', 0, 3) :  l1 *)
+(* _client.py :: _async_get_key :: shape kernel :  GetKey(... 3: l1  [= l1] ...) *)
 Definition k_onl_agetkey_arg3 (l1 : Z) : Z :=
   l1.
